@@ -7,6 +7,7 @@ package zzverif
 import (
 	"errors"
 	"fmt"
+	"reflect"
 	"sort"
 	"strings"
 	"testing"
@@ -203,19 +204,22 @@ func c20RunValue(ctx *Ctx, c c20ValueCase) {
 // --- generated: bundles ----------------------------------------------------------------
 
 type c20BundleCase struct {
-	Res []string `json:"res"`
+	Res   []string `json:"res"`
+	Kinds []string `json:"kinds,omitempty"` // per entry: collection post put delete empty ("" = collection)
+	Type  string   `json:"type,omitempty"`  // collection transaction batch
 }
 
 func c20GenBundle(s Src) c20BundleCase {
-	var c c20BundleCase
-	for i := 0; i < s.Range(0, 5); i++ {
+	c := c20BundleCase{Type: pickOne(s, []string{"collection", "transaction", "batch"})}
+	for i := 0; i < s.Range(0, 6); i++ {
 		c.Res = append(c.Res, resToText(genAnyResource(s, smallGen)))
+		// entries without a resource (a DELETE request, an empty entry) keep their position
+		c.Kinds = append(c.Kinds, pickOne(s, []string{"collection", "collection", "post", "put", "delete", "empty"}))
 	}
 	return c
 }
 
 func c20RunBundle(ctx *Ctx, c c20BundleCase) {
-	ctx.Eval(fmt.Sprint(len(c.Res), c.Res), len(c.Res) >= 2, "stage:bundles")
 	var rs []fhir.Resource
 	for _, t := range c.Res {
 		r, err := resFromText(t)
@@ -225,20 +229,61 @@ func c20RunBundle(ctx *Ctx, c c20BundleCase) {
 		}
 		rs = append(rs, r.(fhir.Resource))
 	}
+	without := 0
+	for _, k := range c.Kinds {
+		if k == "delete" || k == "empty" {
+			without++
+		}
+	}
+	ctx.Eval(fmt.Sprint(c.Type, c.Kinds, c.Res), len(c.Res) >= 2, "stage:bundles", fmt.Sprintf("entries-without-resource:%v", without > 0))
+	isNil := func(r fhir.Resource) bool {
+		return r == nil || reflect.ValueOf(r).IsNil()
+	}
 	g := guard(func() {
 		var entries []*bcrpb.Bundle_Entry
-		for _, r := range rs {
-			entries = append(entries, bundle.NewCollectionEntry(r))
+		want := make([]fhir.Resource, len(rs))
+		for i, r := range rs {
+			k := "collection"
+			if i < len(c.Kinds) && c.Kinds[i] != "" {
+				k = c.Kinds[i]
+			}
+			switch k {
+			case "post":
+				entries, want[i] = append(entries, bundle.NewPostEntry(r)), r
+			case "put":
+				entries, want[i] = append(entries, bundle.NewPutEntry(r)), r
+			case "delete":
+				entries = append(entries, bundle.NewDeleteEntry(resource.Type("Patient"), fmt.Sprintf("p%d", i)))
+			case "empty":
+				entries = append(entries, &bcrpb.Bundle_Entry{})
+			default:
+				entries, want[i] = append(entries, bundle.NewCollectionEntry(r)), r
+			}
 		}
-		b := bundle.NewCollection(bundle.WithEntries(entries...))
+		var b *bcrpb.Bundle
+		switch c.Type {
+		case "transaction":
+			b = bundle.NewTransaction(bundle.WithEntries(entries...))
+		case "batch":
+			b = bundle.NewBatch(bundle.WithEntries(entries...))
+		default:
+			b = bundle.NewCollection(bundle.WithEntries(entries...))
+		}
 		got := bundle.Unwrap(b)
 		if len(got) != len(rs) {
-			ctx.Fail("wrappers bundle: Unwrap returns another number of resources", fmt.Sprintf("%d vs %d", len(got), len(rs)))
+			ctx.Fail("wrappers bundle: Unwrap returns another number of resources than the bundle has entries", fmt.Sprintf("%d vs %d (kinds %v)", len(got), len(rs), c.Kinds))
 			return
 		}
 		for i := range rs {
-			if any(got[i]) != any(rs[i]) {
-				ctx.Fail("wrappers bundle: Unwrap does not return the entries' resources in order", fmt.Sprintf("position %d", i))
+			if want[i] == nil {
+				if !isNil(got[i]) {
+					ctx.Fail("wrappers bundle: Unwrap invents a resource for an entry without one", fmt.Sprintf("position %d (kinds %v)", i, c.Kinds))
+					return
+				}
+				continue
+			}
+			if any(got[i]) != any(want[i]) {
+				ctx.Fail("wrappers bundle: Unwrap does not return the entries' resources in order", fmt.Sprintf("position %d (kinds %v)", i, c.Kinds))
 				return
 			}
 		}
